@@ -205,6 +205,11 @@ var soupLarge = []string{"a", "f", "(", ")", "[", "]", ",", "+", "by", "=", "in"
 // soupContexts are the positions the soup is spliced into.
 var soupContexts = []string{"T | where %s", "T | summarize %s", "T | extend %s", "T | sort by %s", "T | join (U) on %s", "T | top 1 by %s | count", "T | project %s", "let x = %s; T"}
 
+// soupOps / soupOpContexts: operator-level soups (keywords of every operator's
+// optional parts) spliced where an operator or its arguments are expected.
+var soupOps = []string{"a", "(", ")", ",", "=", "by", "kind", "inner", "on", "with", "nulls", "first", "asc", "|", "count", "1", "'s'", ";"}
+var soupOpContexts = []string{"T | join %s", "T | join kind = %s", "T | join (U) %s", "T | render %s", "T | render x with (%s", "T | take %s", "T | as %s", "T | %s", "%s", "T | sort by a %s", "T | top %s", "T | summarize a %s", "let %s"}
+
 // enumSoups calls f for every space-joined sequence of 0..maxLen alphabet
 // symbols assigned to this shard.
 func enumSoups(alphabet []string, maxLen, shard, nshards int, f func(soup string)) {
@@ -244,11 +249,21 @@ func TestC08Exhaustive(t *testing.T) {
 	for _, p := range passes {
 		bound += fmt.Sprintf("all sequences of <= %d tokens over %q; ", p.maxLen, p.alphabet)
 	}
-	st.SetExhaustive(bound + fmt.Sprintf("each spliced into %q", soupContexts))
+	st.SetExhaustive(bound + fmt.Sprintf("each spliced into %q; plus all sequences of <= %d tokens over %q spliced into %q", soupContexts, env.Pick(3, 4), soupOps, soupOpContexts))
 	failed := false
+	type ctxPass struct {
+		pass
+		contexts []string
+	}
+	var all []ctxPass
 	for _, p := range passes {
+		all = append(all, ctxPass{p, soupContexts})
+	}
+	all = append(all, ctxPass{pass{soupOps, env.Pick(3, 4)}, soupOpContexts})
+	for _, p := range all {
+		contexts := p.contexts
 		enumSoups(p.alphabet, p.maxLen, env.Shard, env.NShards, func(soup string) {
-			for _, ctx := range soupContexts {
+			for _, ctx := range contexts {
 				if failed {
 					return
 				}
